@@ -478,6 +478,92 @@ pub fn run(rep: &mut Report, thorough: bool, replay: Option<Value>) {
                 }
             }
         }
+        // ---- metadata and its response sent TOGETHER (the simulator may batch them into one
+        // tick: "same or a previous tick" in the doc contract), then, behind a quiescence barrier,
+        // a second response with the same key. Whatever tick the first response landed in (if it
+        // ran before the metadata it is legitimately unmatched), every key must be joined with
+        // its metadata exactly ONCE in total.
+        let together: Vec<(Vec<u32>, Vec<u32>)> = vec![(vec![1], vec![1]), (vec![1, 2], vec![1, 2]), (vec![1, 2], vec![2]), (vec![1, 2], vec![])];
+        let rec2: Rec<(Vec<(u32, u32)>, Vec<(u32, (u32, u32))>)> = Rec::new();
+        for (keys, dups) in &together {
+            let name = format!("together{keys:?}+dup{dups:?}");
+            if let Some(c) = &only
+                && c["events"] != name.as_str()
+            {
+                continue;
+            }
+            let run = || {
+                let r = exhaustive(&sim, async || {
+                    metadata_send.send_many(keys.iter().map(|k| (*k, 10 * k)));
+                    response_send.send_many(keys.iter().map(|k| (*k, 100 + k)));
+                    let mut acks = vec![];
+                    for _ in keys {
+                        acks.push(metadata_ack_recv.next().await);
+                    }
+                    // phase barrier: the first responses have been consumed by some tick
+                    hydro_lang::sim::quiesce().await;
+                    response_send.send_many(dups.iter().map(|k| (*k, 200 + k)));
+                    let all: Vec<(u32, (u32, u32))> = joined_recv.collect_sorted().await;
+                    rec2.push((acks, all));
+                });
+                (r, rec2.take())
+            };
+            type TObs = (Vec<(u32, u32)>, Vec<(u32, (u32, u32))>);
+            let eval = |res: &Result<usize, String>, obs: &[TObs]| -> Vec<(String, String, Value)> {
+                let mut v = vec![];
+                let case = json!({"kind": "join", "events": name});
+                if let Err(p) = res {
+                    v.push((format!("C39|join_responses|{name}|panic"), format!("join_responses {name}: simulation panicked: {}", p.chars().take(300).collect::<String>()), case.clone()));
+                }
+                for (acks, all) in obs {
+                    let exp_acks: Vec<(u32, u32)> = keys.iter().map(|k| (*k, 10 * k)).collect();
+                    if *acks != exp_acks {
+                        v.push((format!("C39|join_responses|{name}|acks"), format!("join_responses {name}: metadata acks {acks:?} != {exp_acks:?}"), case.clone()));
+                    }
+                    for k in keys {
+                        let mine: Vec<&(u32, (u32, u32))> = all.iter().filter(|(kk, _)| kk == k).collect();
+                        let well_formed = mine.iter().all(|(_, (m, r))| *m == 10 * k && (*r == 100 + k || (*r == 200 + k && dups.contains(k))));
+                        // a key without a later duplicate may legitimately stay unmatched if its
+                        // response was batched before its metadata existed
+                        let count_ok = if dups.contains(k) { mine.len() == 1 } else { mine.len() <= 1 };
+                        if !well_formed || !count_ok {
+                            v.push((
+                                format!("C39|join_responses|{name}|match"),
+                                format!("join_responses {name}: key {k} was joined {} time(s): {mine:?} (reference: with its request's metadata, exactly once in total); all joined {all:?}", mine.len()),
+                                case.clone(),
+                            ));
+                            break;
+                        }
+                    }
+                    if all.iter().any(|(k, _)| !keys.contains(k)) {
+                        v.push((format!("C39|join_responses|{name}|match"), format!("join_responses {name}: unknown key joined: {all:?}"), case.clone()));
+                    }
+                }
+                v
+            };
+            let (res, obs) = run();
+            for o in &obs {
+                st.eval();
+                st.outcome(&("join-together", &name, o));
+            }
+            st.nontrivial(&name);
+            st.sample(|| json!({"case": name, "executions": obs.len(), "first": format!("{:?}", obs.first())}));
+            let mut viol = eval(&res, &obs);
+            if !viol.is_empty() {
+                let (res2, obs2) = run();
+                let k1: BTreeSet<_> = viol.iter().map(|v| v.0.clone()).collect();
+                let k2: BTreeSet<_> = eval(&res2, &obs2).iter().map(|v| v.0.clone()).collect();
+                if k1 != k2 {
+                    machinery(&format!("join_responses {name}: violation did not reproduce"));
+                }
+                let n_bad = viol.len();
+                viol.truncate(1);
+                for (k, w, r) in viol {
+                    st.violation(k, format!("{w} [{n_bad} of {} schedules]", obs.len()), r);
+                }
+            }
+            println!("    (join_responses {name}: {} schedules)", obs.len());
+        }
         println!("  [join_responses] scenarios={} executions={} violations={}", scen.len(), st.evaluations, st.violations_total);
         rep.section("join_responses", st);
     }
